@@ -1,0 +1,15 @@
+//go:build verif
+
+package websocket
+
+import "io"
+
+// VerifSwapMaskRand replaces the source of client masking keys and returns
+// the previous one. It exists only in builds with the "verif" tag and is used
+// by the deterministic simulation harness to make client frames reproducible
+// and to observe which keys are issued.
+func VerifSwapMaskRand(r io.Reader) io.Reader {
+	old := maskRand
+	maskRand = r
+	return old
+}
